@@ -743,7 +743,7 @@ def check_emission(ctx, repo):
         ctx.ok(q, fn, operators=len(unary_ops))
 
 
-@rule("C11.emission-pairing", props=["C11", "C03", "C16"], min_instances=7, mutants=[
+@rule("C11.emission-pairing", props=["C11", "C03", "C16", "C09", "C12", "C13"], min_instances=7, mutants=[
     ("the number 1 is taken for the identity of every operator", ("taperecorder", "            # Assume scalar\n", "            # Assume scalar\n            if other == 1:\n                return self\n")),
     ("products with a plain number are recorded as the geometric product", ("taperecorder", "            # Assume scalar\n", "            if operator in ('op', 'ip', 'lc', 'rc', 'sp', 'acp'):\n                operator = 'gp'\n")),
     ("emit operands in swapped order", ("taperecorder", "expr = f'{func.__name__}({self.expr}, {other.expr})'", "expr = f'{func.__name__}({other.expr}, {self.expr})'")),
